@@ -35,6 +35,8 @@ BLOCKHASH = chain("blockhash", 16, 160, ops=4)
 # the oracle's task parameters changed by the real handler of a parameter-change proposal (epsilons around zero), then the real
 # oracle.EndBlocker at the closing block of a task whose responses make that epsilon the whole divisor (C08)
 ORACLEPARAMS = chain("oracleparams", 12, 120, ops=40, tops=80)
+# the shield's withdraw period changed by the real parameter-change handler, then a withdrawal request through the real keeper (C07)
+SHIELDPARAMS = chain("shieldparams", 12, 120, ops=120, tops=200)
 VM_ASSUME = ["outside the Lean interpreter model (cases reaching them are skipped by the comparison, monitors still run): native/precompile addresses (<= 0xff), any use of an address destroyed earlier in the same transaction, call / constructor nesting deeper than 8",
              "CREATE and CREATE2 are inside the model; the address CREATE derives (SHA-256 of creator, transaction nonce and the CVM's sequence counter; no SHA-256 in the Lean base) is an input of the model: the harness reconstructs the table (creator, sequence number) -> address from the interpreter's call events, the driver checks that it is a one-to-one function, and a model run that asks for an entry the interpreter did not derive is reported as a difference; the CREATE2 address (Keccak-256) is computed by the model",
              "the VM engine's state gives every account the CreateContract permission (Burrow's default global permissions) and has no contract metadata (InitChildCode's code-hash whitelist is empty); the transaction nonce option of the CVM is empty",
@@ -68,7 +70,7 @@ PROPS = {
     "C05": dict(SHIELD, lean=["Shentu.Props.C05", "Shentu.Props.C05H", "Shentu.Props.ShieldTie"]),
     "C06": dict(SHIELD, lean=["Shentu.Props.C06", "Shentu.Props.ShieldTie"], assumptions=SHIELD["assumptions"] + [
         "the converse (a funded purchase meeting the conditions is accepted) is proved for purchases whose fee or stake does not truncate to zero (amount x rate >= 1 unit); with the default minimum purchase of 50 CTK this always holds; below it the module answers ErrNoShield"]),
-    "C07": dict(SHIELD, lean=["Shentu.Props.C07", "Shentu.Props.ShieldTie"]),
+    "C07": dict(SHIELD, lean=["Shentu.Props.C07", "Shentu.Props.ShieldTie"], engines=SHIELD["engines"] + [SHIELDPARAMS]),
     "C08": {
         "lean": ["Shentu.Props.C08", "Shentu.Props.C04b", "Shentu.Props.C04c", "Shentu.Props.C04r", "Shentu.Props.C01m"],
         "engines": [chain("shield", 96, 960, ops=240, tops=400), chain("oracle", 48, 480, ops=120), chain("gov", 48, 480, ops=120), chain("staking", 32, 320, ops=150), chain("bankvm", 32, 320, ops=100), MINT, REIMB, ORACLEPARAMS],
